@@ -200,7 +200,7 @@ PROPS["C18"] = {
     "assumptions": ["the gates are deterministic functions of (quote, options) — guaranteed by C12's no-history theorem"],
 }
 MANIFEST_TEXT["C18"] = {
-    "text": "Lean theorems over the gate sequencing of ParseCcelWithTdQuote for arbitrary gate outcomes and replay functions (state_implies_gates, gates_passed, failure_returns_no_state, replay_mismatch_returns_no_state) and over GetRtmrsFromTdQuote for every message (bank_is_quote_rtmrs: entry i = (i, RTMR i), at most four; five_rtmrs_is_error; getRtmrs_never_panics; F12 witness), compared with the real function on a re-signed sample quote with every RTMR bit flipped, gate faults and structural mutants.",
+    "text": "Lean theorems over the gate sequencing of ParseCcelWithTdQuote for arbitrary gate outcomes and replay functions, the result being Go's (state, error) pair (state_implies_gates, gates_passed, failure_returns_no_state, failed_gate_never_yields_state, replay_mismatch_returns_no_state, parse_panics_only_if_part_does) and over GetRtmrsFromTdQuote for every message (bank_is_quote_rtmrs: entry i = (i, RTMR i), at most four; five_rtmrs_is_error; getRtmrs_never_panics; F12 witness), compared with the real function on a re-signed sample quote with every RTMR bit flipped, gate faults, other event logs (none, empty, cut, changed), caller-owned nonce buffers and structural mutants.",
     "note": "Trusted: Lean kernel, extractor, harness. Replay semantics are go-eventlog's (parameter); which registers the sample log has events for is observed through the direct replay call.",
     "technique": "Lean 4 proof (sequencing over parametric gates) + differential correspondence",
 }
